@@ -18,12 +18,28 @@ script events (python lists):
   ['cancel', [uids]]           agent._control_cb(topic, {cmd: cancel_pilots, arg: {uids}})
   ['terminate']                agent._control_cb(topic, {cmd: terminate})
   ['stop']                     agent.stop()
-  ['finalize']                 agent.finalize()
+  ['finalize']                 agent._finalize() the way the work loop runs it
+  ['finalize', opts]           the same with faults DURING termination:
+       opts['env']    what finalize() finds in the pilot sandbox
+           'list'  : pilot level output_staging -> staging_output.txt (LISTS)
+           'tails' : agent_0.out / .err / .log (TAILS)
+       opts['raise']  helpers of agent_0.py (ru.* / rpu.* functions) whose first
+                      call before the publication raises, e.g. ['sh_callout']
+       opts['during'] script events applied while finalize() is between its
+                      first steps and the publication (after stage_output)
   ['boot']                     tail of bootstrap_0.sh in the agent's directory
+
+finalize(): the real `stage_output` runs the real `tar` in the scratch sandbox.
+`ru` / `rpu` as seen by agent_0.py are pass-through proxies for the duration of
+the call: they record which helper functions finalize() calls before it
+publishes (the steps), raise where the script says so, and offer the point at
+which `during` events are applied.  Logger, profiler and the publication itself
+(the write of killme.signal, advance) are not made to fail.
 '''
 
 import os
 import re
+import types
 import shutil
 import tempfile
 import subprocess
@@ -53,6 +69,87 @@ class _Clock(object):
         return self.now
     def sleep(self, dt):
         self.now += dt
+
+
+# what the pilot sandbox holds when finalize() runs.  value: (is a fault of the
+# step, needs the real tar).  The launcher writes staging_output.txt iff the pilot
+# description has output_staging; listed entries are relative to the sandbox.
+LISTS = {'none'        : (False, False),   # no output_staging configured
+         'ok'          : (False, True),    # listed file and directory exist
+         'tgz_exists'  : (False, False),   # tarball is there already: nothing to do
+         'missing_file': (True,  True),    # a listed file was never written: tar exits 2
+         'missing_dir' : (True,  True),    # a listed directory does not exist
+         'empty'       : (True,  True),    # list without entries: tar refuses
+         'tgz_is_dir'  : (True,  True)}    # the tarball cannot be created
+TAILS = {'none'  : False,                  # no agent_0.out/.err/.log (as in the plain rig)
+         'files' : False,
+         'dir'   : True,                   # agent_0.out is a directory
+         'binary': True}                   # agent_0.err is not UTF-8
+
+# the helper a step of finalize() hangs on -> step name (any other helper is a step of its own)
+STEP_OF = {'sh_callout': 'stage', 'get_rusage': 'rusage', 'ru_open': 'tails'}
+RAISES  = {'sh_callout': OSError(24, 'Too many open files (injected)'),
+           'get_rusage': OSError(22, 'getrusage failed (injected)'),
+           'ru_open'   : OSError(5,  'Input/output error (injected)')}
+
+
+def helpers_of_finalize():
+    '''the helper functions (ru.* / rpu.*) the real finalize() of this tree calls before it
+       publishes, seen in a run with output staging configured and log files present'''
+    tr = AgentLifeRig(0, [['finalize', {'env': {'list': 'ok', 'tails': 'files'}}]], boot=False).run()
+    return [h for e in tr['events'] if e['ev'] == 'FinBegin' for h in e['helpers']]
+
+
+def prepare_sandbox(env):
+    '''fill the current directory (the scratch pilot sandbox)'''
+    lst, tails = env.get('list', 'none'), env.get('tails', 'none')
+    if lst != 'none':
+        with open('result.dat', 'w') as fh:
+            fh.write('42\n')
+        os.mkdir('outdir')
+        with open('outdir/part.dat', 'w') as fh:
+            fh.write('1\n')
+        entries = {'ok': ['result.dat', 'outdir'], 'tgz_exists': ['result.dat'],
+                   'missing_file': ['result.dat', 'never_written.dat'],
+                   'missing_dir': ['result.dat', 'no_such_dir/'], 'empty': [],
+                   'tgz_is_dir': ['result.dat']}[lst]
+        with open('staging_output.txt', 'w') as fh:
+            for e in entries:
+                fh.write('%s\n' % e)
+        if lst == 'tgz_exists':
+            with open('staging_output.tgz', 'w') as fh:
+                fh.write('x')
+        if lst == 'tgz_is_dir':
+            os.mkdir('staging_output.tgz')
+    if tails == 'files':
+        for ext in ('out', 'err', 'log'):
+            with open('agent_0.%s' % ext, 'w') as fh:
+                fh.write('line\n')
+    elif tails == 'dir':
+        os.mkdir('agent_0.out')
+    elif tails == 'binary':
+        with open('agent_0.err', 'wb') as fh:
+            fh.write(b'\xff\xfe\x00\xe9 not utf-8\n')
+
+
+class _ModProxy(object):
+    '''stands in for a module in the namespace of agent_0.py: everything is the
+       real thing, plain functions are reported to the rig when called'''
+
+    def __init__(self, real, on_call):
+        self.__dict__['_real']    = real
+        self.__dict__['_on_call'] = on_call
+
+    def __getattr__(self, name):
+        val = getattr(self._real, name)
+        if isinstance(val, (types.FunctionType, types.BuiltinFunctionType)):
+            on_call = self._on_call
+
+            def wrapped(*a, **k):
+                on_call(name, a, k)
+                return val(*a, **k)
+            return wrapped
+        return val
 
 
 class _Stub(object):
@@ -141,6 +238,116 @@ class AgentLifeRig(object):
         c = a._final_cause
         return {'cause': {None: 'none', 'sys.exit': 'sysexit'}.get(c, c), 'term': a._term.is_set()}
 
+    # --------------------------------------------------------------------------
+    def _finalize(self, a, opts):
+        '''the real finalize() (through the real _finalize(), exceptions logged
+           and swallowed as by the work loop) in a sandbox prepared as opts['env']
+           says, helpers raising as opts['raise'] says'''
+        env    = dict(opts.get('env') or {})
+        plan   = [str(x) for x in (opts.get('raise') or [])]
+        during = [list(x) for x in (opts.get('during') or [])]
+        st     = {'published': False, 'calls': [], 'fired': [], 'during': during, 'busy': False}
+        prepare_sandbox(env)
+
+        def run_during():
+            if st['during'] and not st['busy'] and not st['published']:
+                todo, st['during'], st['busy'] = st['during'], [], True
+                try:
+                    for step in todo:
+                        self._apply(a, step)
+                finally:
+                    st['busy'] = False
+
+        def on_call(name, args, kw):
+            if st['busy'] or st['published']:
+                return
+            if name == 'ru_open' and len(args) > 1 and 'w' in str(args[1]):
+                # the signal file is being written: the publication has begun
+                run_during()
+                st['published'] = True
+                return
+            if name != 'sh_callout':
+                run_during()
+            st['calls'].append(name)
+            if name in plan and name not in st['fired']:
+                st['fired'].append(name)
+                raise RAISES.get(name, RuntimeError('%s failed (injected)' % name))
+
+        real_stage = a.stage_output
+
+        def stage_then_during(*args, **kw):
+            ret = real_stage(*args, **kw)
+            run_during()
+            return ret
+
+        real_adv = a.advance
+
+        def advance(things, *x, **k):
+            run_during()
+            st['published'] = True
+            return real_adv(things, *x, **k)
+
+        a.stage_output, a.advance = stage_then_during, advance
+        n, raised = len(self.adv), 'none'
+        faults = []
+        if LISTS[env.get('list', 'none')][0]:
+            faults.append('stage:%s' % env['list'])
+        if TAILS[env.get('tails', 'none')]:
+            faults.append('tails:%s' % env['tails'])
+        ib = len(self.events)
+        self.events.append(dict(ev='FinBegin', faults=faults, list=env.get('list', 'none'),
+                                tails=env.get('tails', 'none')))
+        try:
+            with mock.patch.object(m_agent0, 'ru',  _ModProxy(m_agent0.ru,  on_call)), \
+                 mock.patch.object(m_agent0, 'rpu', _ModProxy(m_agent0.rpu, on_call)):
+                try:
+                    a._finalize()
+                except Exception as e:                 # component._work_loop: logged, ignored
+                    raised = type(e).__name__
+        finally:
+            del a.stage_output
+            a.advance = real_adv
+        # the steps in which a helper was made to raise
+        self.events[ib]['faults']  = faults + ['%s:raise' % STEP_OF.get(h, h) for h in st['fired']]
+        self.events[ib]['steps']   = sorted(set(STEP_OF.get(h, h) for h in st['calls']))
+        self.events[ib]['helpers'] = sorted(set(st['calls']))
+        sig = ''
+        if os.path.exists('./killme.signal'):
+            sig = open('./killme.signal').read().strip()
+        new = [x for x in self.adv[n:] if x[0].get('type') == 'pilot' and x[0].get('state') in rp.states.FINAL]
+        adv = new[-1][0].get('state', 'none') if new else 'none'
+        self.events.append(dict(ev='Finalize', signal=sig, advanced=adv or 'none', raised=raised,
+                                npub=len(new), uid=str(new[-1][0].get('uid')) if new else 'none',
+                                tgz=os.path.isfile('./staging_output.tgz'), **self._post(a)))
+
+    # --------------------------------------------------------------------------
+    def _apply(self, a, step):
+        op = step[0]
+        if op == 'tick':
+            self.clock.now = T0 + step[1] * 60
+        elif op == 'lifetime':
+            ret = a._check_lifetime()
+            self.events.append(dict(ev='LifetimeCheck',
+                                    now=int(round((self.clock.now - T0) / 60)),
+                                    ret=str(ret).lower(), **self._post(a)))
+        elif op == 'cancel':
+            a._control_cb(rpc.CONTROL_PUBSUB,
+                          {'cmd': 'cancel_pilots', 'arg': {'uids': list(step[1])}})
+            self.events.append(dict(ev='CancelCmd', uids=list(step[1]), **self._post(a)))
+        elif op == 'terminate':
+            a._control_cb(rpc.CONTROL_PUBSUB, {'cmd': 'terminate', 'arg': None})
+            self.events.append(dict(ev='TerminateCmd', **self._post(a)))
+        elif op == 'stop':
+            a.stop()
+            self.events.append(dict(ev='Stop', **self._post(a)))
+        elif op == 'finalize':
+            self._finalize(a, step[1] if len(step) > 1 else {})
+        elif op == 'boot':
+            self.events.append(dict(ev='Boot', exists=os.path.exists('./killme.signal'),
+                                    state=run_boot(os.getcwd()) if self.boot else 'skipped'))
+        else:
+            raise ValueError('unknown step %r' % (step,))
+
     def run(self):
         cwd = os.getcwd()
         wd  = tempfile.mkdtemp(prefix='b-agentlife_', dir='/tmp')
@@ -149,40 +356,7 @@ class AgentLifeRig(object):
             with mock.patch.object(m_agent0, 'time', self.clock):
                 a = self._build()
                 for step in self.script:
-                    op = step[0]
-                    if op == 'tick':
-                        self.clock.now = T0 + step[1] * 60
-                    elif op == 'lifetime':
-                        ret = a._check_lifetime()
-                        self.events.append(dict(ev='LifetimeCheck',
-                                                now=int(round((self.clock.now - T0) / 60)),
-                                                ret=str(ret).lower(), **self._post(a)))
-                    elif op == 'cancel':
-                        a._control_cb(rpc.CONTROL_PUBSUB,
-                                      {'cmd': 'cancel_pilots', 'arg': {'uids': list(step[1])}})
-                        self.events.append(dict(ev='CancelCmd', uids=list(step[1]), **self._post(a)))
-                    elif op == 'terminate':
-                        a._control_cb(rpc.CONTROL_PUBSUB, {'cmd': 'terminate', 'arg': None})
-                        self.events.append(dict(ev='TerminateCmd', **self._post(a)))
-                    elif op == 'stop':
-                        a.stop()
-                        self.events.append(dict(ev='Stop', **self._post(a)))
-                    elif op == 'finalize':
-                        n = len(self.adv)
-                        a.finalize()
-                        sig = ''
-                        if os.path.exists('./killme.signal'):
-                            sig = open('./killme.signal').read().strip()
-                        new = self.adv[n:]
-                        adv = new[-1][0].get('state', 'none') if new else 'none'
-                        self.events.append(dict(ev='Finalize', signal=sig, advanced=adv or 'none',
-                                                npub=len(new), uid=str(new[-1][0].get('uid')) if new else 'none',
-                                                **self._post(a)))
-                    elif op == 'boot':
-                        self.events.append(dict(ev='Boot', exists=os.path.exists('./killme.signal'),
-                                                state=run_boot(wd) if self.boot else 'skipped'))
-                    else:
-                        raise ValueError('unknown step %r' % (step,))
+                    self._apply(a, step)
         finally:
             os.chdir(cwd)
             shutil.rmtree(wd, ignore_errors=True)
@@ -190,10 +364,17 @@ class AgentLifeRig(object):
 
 
 # ------------------------------------------------------------------------------
-def random_script(rng):
+def random_script(rng, kinds=None):
+    '''kinds: object with opts(fail_set, during) -> options of a finalize step'''
     runtime = rng.choice([0, 1, 2, 3, 10])
     script, now, lc, term, late = [], 0, True, False, 0
-    for _ in range(rng.randint(0, 6)):
+    n_ev    = rng.randint(0, 6)
+    n_dur   = rng.randint(0, min(2, n_ev)) if kinds and rng.random() < 0.3 else 0
+    fin_at  = n_ev - n_dur          # finalize begins after this many draws
+    pre     = script
+    for i in range(n_ev):
+        if i == fin_at and n_dur:
+            script = []             # what arrives while finalize runs its steps
         x = rng.random()
         if x < 0.30:
             now += rng.choice([0, 1, 1, 2, 5])
@@ -218,7 +399,13 @@ def random_script(rng):
         else:
             script.append(['stop'])
             term = True
-    if rng.random() < 0.9:
-        script.append(['finalize'])
+    during, script = (script, pre) if script is not pre else ([], pre)
+    if rng.random() < 0.9 or during:
+        if kinds and rng.random() < 0.6:
+            fail = [k for k in (1, 2, 3) if rng.random() < 0.3]
+            script.append(['finalize', kinds.opts(fail, during)])
+        else:
+            script.extend(during)
+            script.append(['finalize'])
     script.append(['boot'])
     return runtime, script
